@@ -53,6 +53,27 @@ def run_calls(cfg, ids=None, role="single"):
     np.random.seed((c["kseed"] if c["kseed"] is not None else c["seed"]) % (2**31))
     gen = np.random.default_rng(c["seed"])
     urng = LoggingRNG(gen, tr)
+    if c["sampler"] == "convert":
+        # Aspire.convert_to_samples(x): evaluates the prior and then the likelihood on user-supplied points
+        from aspire import Aspire
+        status, exc, result = "ok", "", None
+        try:
+            a = Aspire(log_likelihood=tr.log_likelihood, log_prior=tr.log_prior, dims=c["dims"],
+                       parameters=[f"x_{i}" for i in range(c["dims"])], flow=flow, xp=xp, dtype=c["dtype"])
+            verifflow_mod.OBSERVER = None
+            x, lq = flow.sample_and_log_prob(c["N"])
+            verifflow_mod.OBSERVER = tr.flow_event
+            result = a.convert_to_samples(xp.asarray(to_np(x)), log_q=xp.asarray(to_np(lq)))
+        except Exception as ex:
+            status, exc = "raised", f"{type(ex).__name__}: {ex}"
+        finally:
+            minipcn_stub.OBSERVER = None; emcee_stub.OBSERVER = None; verifflow_mod.OBSERVER = None
+
+        class _S:
+            n_likelihood_evaluations = -1
+        return {"cfg": c, "role": role, "status": status, "exc": exc, "tracer": tr, "sampler": _S(),
+                "result": result, "urng": urng, "flow": flow, "prob": prob, "ids": ids,
+                "orng_created": 0, "resumed": False}
     Cls = sampler_class(c["sampler"])
     sc = dict(smcdrv.DEFAULT); sc.update({k: c[k] for k in ("dims", "dtype", "precond")})
     sampler = Cls(log_likelihood=tr.log_likelihood, log_prior=tr.log_prior, dims=c["dims"],
@@ -116,7 +137,7 @@ def project_calls_group(gid, runs):
             want_w = w if c["dtype"] is not None else (64 if c["ns"] != "torch" else 32)
             exp_n = c["N"]
             size_ok = True
-            if c["sampler"] == "importance":
+            if c["sampler"] in ("importance", "convert"):
                 size_ok = len(res.x) == exp_n
             evs.append({"t": "result", "nlike": int(S.n_likelihood_evaluations),
                         "coh": [bool(x) for x in cc if x is not None], "size_ok": bool(size_ok),
